@@ -254,22 +254,44 @@ def gainOk (prev cur : State) : Bool :=
 Every actor's handler blocks on a gate (`busy`), so that "Draining with a backlog" is reachable.
 `exitM` is an exit followed by the exits of everything that was sent the kill signal. -/
 
+/-- why an actor exited, as its supervisor is told (`ActorTerminated(_, _, reason)` / `ActorFailed`) -/
+inductive Why | stopped | drained | killed | failed | cancelled
+  deriving DecidableEq, Repr
+
+/-- the reason text in the supervision event: `stop(None)` carries none -/
+def Why.text : Why → String
+  | .stopped => "none" | .drained => "Drained" | .killed => "killed" | .failed => "failed"
+  | .cancelled => "actor_task_cancelled"
+
 structure Act where
   gone : Bool := false
   busy : Bool := false
   queue : Nat := 0
   stopReq : Bool := false
   handled : Nat := 0
+  /-- the one-shot stop port has been used (a later `stop()` is refused: `stop_and_wait` then returns
+  at once, without waiting) -/
+  stopSent : Bool := false
   /-- the harness armed the gate in this actor's `post_stop` -/
   hold : Bool := false
   /-- the actor ended its message loop gracefully, published `Stopping` and sits in `post_stop`;
   `ActorLifecycleGuard::cleanup` (terminate, unlink, Stopped) has not run yet -/
   inPs : Bool := false
+  /-- why the actor left its message loop (reported when `cleanup` finally runs) -/
+  why : Why := .stopped
+  deriving DecidableEq, Repr
+
+/-- a `*_children_and_wait` task: the children it still waits for -/
+structure Waiter where
+  pending : List Nat
   deriving DecidableEq, Repr
 
 structure MState where
   t : State := {}
   act : Nat → Act := fun _ => {}
+  /-- terminal supervision events handed to a supervisor's port: (who, to, why), oldest first -/
+  evs : List (Nat × Nat × Why) := []
+  waiters : List Waiter := []
 
 def MState.alive (m : MState) (a : Nat) : Bool := decide (a < m.t.n) && !(m.act a).gone
 
@@ -279,17 +301,27 @@ def settle (fixed : Bool) : Nat → MState → MState
   | f + 1, m =>
     match (List.range m.t.n).find? (fun x => m.t.killed x && !(m.act x).gone) with
     | none => m
-    | some x => settle fixed f { t := exit fixed m.t x, act := upd m.act x { m.act x with gone := true, busy := false } }
+    | some x => settle fixed f { m with t := exit fixed m.t x, act := upd m.act x { m.act x with gone := true, busy := false } }
 
-def exitM (fixed : Bool) (m : MState) (a : Nat) : MState :=
-  settle fixed m.t.n { t := exit fixed m.t a, act := upd m.act a { m.act a with gone := true, busy := false } }
+/-- the tree / bookkeeping part of an exit at a quiescent point -/
+def exitCore (fixed : Bool) (m : MState) (a : Nat) : MState :=
+  settle fixed m.t.n { m with t := exit fixed m.t a, act := upd m.act a { m.act a with gone := true, busy := false } }
+
+/-- … plus the terminal event: `cleanup` notifies the supervisor the actor has after its `terminate`
+and before it unlinks itself.  (The actors taken down with it were detached first: no events.) -/
+def exitM (fixed : Bool) (m : MState) (a : Nat) (w : Why := .killed) : MState :=
+  { exitCore fixed m a with
+    evs := m.evs ++ (match (terminate fixed (setStatus m.t a .stopping) a).sup a with
+                     | some p => [(a, p, w)]
+                     | none => []) }
 
 /-- a graceful exit (stop, drained): `set_status(Stopping)`, then `post_stop`, then `cleanup`.  If the
 gate in `post_stop` is armed the actor stays there — `Stopping`, children still linked, set still open. -/
-def gexit (fixed : Bool) (m : MState) (a : Nat) : MState :=
+def gexit (fixed : Bool) (m : MState) (a : Nat) (w : Why := .stopped) : MState :=
   if (m.act a).hold then
-    { t := setStatus m.t a .stopping, act := upd m.act a { m.act a with inPs := true, busy := false } }
-  else exitM fixed m a
+    { m with t := setStatus m.t a .stopping,
+             act := upd m.act a { m.act a with inPs := true, busy := false, why := w } }
+  else exitM fixed m a w
 
 /-- alive and still in its message loop -/
 def MState.looping (m : MState) (a : Nat) : Bool := m.alive a && !(m.act a).inPs
@@ -324,14 +356,14 @@ def mstep (fixed : Bool) (m : MState) : MOp → MState × Res
     let c := m.t.n
     let r := link (spawn m.t) c p
     if r.2 then ({ m with t := setStatus r.1 c .running }, .ok)
-    else (exitM fixed { m with t := r.1 } c, .err)
+    else (exitCore fixed { m with t := r.1 } c, .err)   -- `cleanup(None)`: nobody is told
   | .spawnlt p fails =>
     let c := m.t.n
     let r := link (spawn m.t) c p
     -- a refused link fails the spawn before any user code has seen the cell: nothing observable is left
     if !r.2 then (m, .err)
     else if !fails then ({ m with t := setStatus r.1 c .running }, .ok)
-    else (exitM fixed { m with t := r.1 } c, .err)
+    else (exitCore fixed { m with t := r.1 } c, .err)   -- a failed `pre_start` is reported by the spawn result only
   | .link c p => let r := link m.t c p; ({ m with t := r.1 }, if r.2 then .tt else .ff)
   | .unlink c p => ({ m with t := unlink m.t c p }, .unit)
   | .block a =>
@@ -343,32 +375,77 @@ def mstep (fixed : Bool) (m : MState) : MOp → MState × Res
     let A := m.act a
     if m.alive a && A.busy then
       let A := { A with handled := A.handled + 1 }
-      if A.stopReq then (gexit fixed { m with act := upd m.act a A } a, .unit)
+      if A.stopReq then (gexit fixed { m with act := upd m.act a A } a .stopped, .unit)
       else if A.queue > 0 then ({ m with act := upd m.act a { A with queue := A.queue - 1 } }, .unit)
       else
         let m' := { m with act := upd m.act a { A with busy := false } }
-        if m.t.status a = .draining then (gexit fixed m' a, .unit) else (m', .unit)
+        if m.t.status a = .draining then (gexit fixed m' a .drained, .unit) else (m', .unit)
     else (m, .unit)
   | .drain a =>
     -- (an actor in `post_stop` no longer reads its ports: drain and stop have no effect on it)
     if m.looping a then
       let m' := { m with t := setStatus m.t a .draining }
-      if (m.act a).busy then (m', .unit) else (gexit fixed m' a, .unit)
+      if (m.act a).busy then (m', .unit) else (gexit fixed m' a .drained, .unit)
     else (m, .unit)
   | .stop a =>
+    -- the one-shot stop port is used up by the first `stop()`, whatever the state of the actor
+    let m := { m with act := upd m.act a { m.act a with stopSent := true } }
     if m.looping a then
       if (m.act a).busy then ({ m with act := upd m.act a { m.act a with stopReq := true } }, .unit)
-      else (gexit fixed m a, .unit)
+      else (gexit fixed m a .stopped, .unit)
     else (m, .unit)
-  | .kill a => if m.alive a then (exitM fixed m a, .unit) else (m, .unit)
-  | .fail a => if m.looping a && !(m.act a).busy then (exitM fixed m a, .unit) else (m, .unit)
-  | .abort a => if m.alive a then (exitM fixed m a, .unit) else (m, .unit)
+  | .kill a => if m.alive a then (exitM fixed m a .killed, .unit) else (m, .unit)
+  | .fail a => if m.looping a && !(m.act a).busy then (exitM fixed m a .failed, .unit) else (m, .unit)
+  | .abort a => if m.alive a then (exitM fixed m a .cancelled, .unit) else (m, .unit)
   | .hold a =>
     if m.alive a then ({ m with act := upd m.act a { m.act a with hold := true } }, .unit) else (m, .unit)
   | .psrelease a =>
-    if m.alive a && (m.act a).inPs then (exitM fixed m a, .unit) else (m, .unit)
+    if m.alive a && (m.act a).inPs then (exitM fixed m a (m.act a).why, .unit) else (m, .unit)
 
 /-- a macro run: what one case of the E-LTS harness is -/
 def mrun (fixed : Bool) (m : MState) (ops : List MOp) : MState := ops.foldl (fun m op => (mstep fixed m op).1) m
+
+/-! ### the supervisor-side wrappers `stop_children`, `drain_children`, `*_and_wait`
+
+`for_each_child(|c| c.stop(reason))` / `c.drain()`: the same request to every child linked at that
+moment.  The waiting variants take the snapshot `get_children()` and run `stop_and_wait` / `drain_and_wait`
+for each child in a `JoinSet`; `stop_and_wait` returns at once (with an error nobody looks at) when the
+child's stop port was already used, otherwise both wait for the child to be `Stopped`. -/
+
+inductive KOp
+  | stopKids (a : Nat)
+  | drainKids (a : Nat)
+  | stopKidsWait (a : Nat)
+  | drainKidsWait (a : Nat)
+  deriving DecidableEq, Repr
+
+def kidsOf (m : MState) (a : Nat) : List Nat := (m.t.kids a).getD []
+
+def kstep (fixed : Bool) (m : MState) : KOp → MState
+  | .stopKids a => mrun fixed m ((kidsOf m a).map .stop)
+  | .drainKids a => mrun fixed m ((kidsOf m a).map .drain)
+  | .stopKidsWait a =>
+    let w : Waiter := ⟨(kidsOf m a).filter (fun c => !(m.act c).stopSent)⟩
+    { mrun fixed m ((kidsOf m a).map .stop) with waiters := m.waiters ++ [w] }
+  | .drainKidsWait a =>
+    { mrun fixed m ((kidsOf m a).map .drain) with waiters := m.waiters ++ [⟨kidsOf m a⟩] }
+
+/-! history clauses for the wrappers (C07: a drain handles everything accepted before it and ends
+"Drained"), evaluated by the driver on the implementation's answers -/
+
+/-- after `drain_children*` on `a` every actor that was its child is at least `Draining` -/
+def drainKidsOk (prev cur : State) (a : Nat) : Bool :=
+  ((prev.kids a).getD []).all (fun c => decide (Status.draining.toNat ≤ (cur.status c).toNat))
+
+/-- the terminal events about former children of `a` caused by `drain_children*` carry "Drained" -/
+def drainKidsReasonsOk (prev : State) (a : Nat) (evs : List (Nat × Nat × Why)) : Bool :=
+  evs.all (fun e => !(((prev.kids a).getD []).contains e.1 && e.2.1 == a) || e.2.2 == .drained)
+
+/-- an actor that was asked to drain, was never asked to stop, and ends its message loop by itself has
+handled everything it accepted -/
+def backlogOk (accepted handled : Nat) : Bool := handled == accepted
+
+/-- the waiting task has returned: every child it waits for is gone -/
+def Waiter.done (m : MState) (w : Waiter) : Bool := w.pending.all (fun c => (m.act c).gone)
 
 end Tree
